@@ -550,3 +550,30 @@ package ast
 //@     invariant union: forall k: string :: schema.Objects.records.has(k) == (old(schema.Objects.records.has(k)) || (orderedMap.records.has(k) && skolem("pos", "entry", k) <= $i))
 //@     invariant added: forall k: string :: orderedMap.records.has(k) && skolem("pos", "entry", k) <= $i && !old(schema.Objects.records.has(k)) ==> schema.Objects.records[k] == orderedMap.records[k]
 //@     invariant agree: err == nil ==> (forall k: string :: orderedMap.records.has(k) && skolem("pos", "entry", k) <= $i && old(schema.Objects.records.has(k)) ==> call("ast.Object.Equal", old(schema.Objects.records[k]), orderedMap.records[k]))
+//
+// C06 helpers: null branches of a disjunction.
+//@ spec isNull(t) = t.Kind == KindScalar && t.Scalar.ScalarKind == KindNull
+//@ func Type.IsNull
+//@   inline
+//
+//@ func Types.HasNullType
+//@   property C06
+//@   modifies nothing
+//@   ensures  result == (exists b: int :: 0 <= b && b < len(types) && isNull(types[b]))
+//@   loop 0:
+//@     invariant none: forall b: int :: 0 <= b && b <= $i ==> !isNull(types[b])
+//
+// NonNullTypes on a two-element list (the only use C06 needs): the non-null elements, in order.
+//@ func Types.NonNullTypes
+//@   property C06
+//@   modifies nothing
+//@   ensures  fresh: len(result) == 0 || fresh(result)
+//@   ensures  two: len(types) == 2 && isNull(types[0]) && !isNull(types[1]) ==> len(result) == 1 && result[0] == types[1]
+//@   ensures  two2: len(types) == 2 && !isNull(types[0]) && isNull(types[1]) ==> len(result) == 1 && result[0] == types[0]
+//@   ensures  nonnull: forall r: int :: 0 <= r && r < len(result) ==> !isNull(result[r])
+//@   loop 0:
+//@     invariant fresh: base(results) != 0 && fresh(results)
+//@     invariant nonnull: forall r: int :: 0 <= r && r < len(results) ==> !isNull(results[r])
+//@     invariant count0: $i < 0 ==> len(results) == 0
+//@     invariant count1: $i == 0 ==> (isNull(types[0]) ==> len(results) == 0) && (!isNull(types[0]) ==> len(results) == 1 && results[0] == types[0])
+//@     invariant count2: $i == 1 ==> (isNull(types[0]) && !isNull(types[1]) ==> len(results) == 1 && results[0] == types[1]) && (!isNull(types[0]) && isNull(types[1]) ==> len(results) == 1 && results[0] == types[0])
